@@ -169,10 +169,15 @@ func (s *BlockSpec) CoreDiff() *core.StateDiff {
 	return d
 }
 
-// Classes are the class definitions that accompany the block (newClasses of Store / Finalise).
+// Classes are the class definitions that accompany the block (newClasses of Store / Finalise): the declared
+// ones and the ones delivered for the block's deployed contracts (Diff.Deliv), as the synchroniser's data source
+// hands them over in one map.
 func (s *BlockSpec) Classes() map[felt.Felt]core.ClassDefinition {
 	classes := map[felt.Felt]core.ClassDefinition{}
 	for _, h := range s.Diff.Decl {
+		classes[*Felt(h)] = Cairo0Class()
+	}
+	for _, h := range s.Diff.Deliv {
 		classes[*Felt(h)] = Cairo0Class()
 	}
 	for _, c := range s.DeclareV1 {
